@@ -245,8 +245,8 @@ def mutate(rng, hexstr):
 
 
 # ---------------------------------------------------------------- cases
-def gen(rng, tier):
-    n = 2500 if tier == "quick" else 50000
+def gen(rng, tier, n=None):
+    n = n or (2500 if tier == "quick" else 50000)
     plan = []   # per PDU: (kind, four)
     cases = []  # list of list of indices into plan
     for _ in range(n):
@@ -334,13 +334,18 @@ def corpus():
         # witnesses of C04_trailing_bits_refuted and C04_duplicate_mp_refuted
         "sm " + mk + "001a0200000000090a81 trail",
         "sm " + mk + "00270200000010800f050002010820800f050002010830 dupmp",
+        # 10.0.0.0/8 announced next to an MP_UNREACH_NLRI without prefixes: not an End-of-RIB marker (was dropped on the
+        # BMP path during the dump phase before the fix of dumping.rs route_monitoring_preprocessing)
+        "sm " + mk + "0023020000000a40010100800f03000201080a eorlike",
+        # the same next to an MP_UNREACH_NLRI of an AFI/SAFI unknown to routecore
+        "sm " + mk + "0026020000000d40010100800f060019010a0b0c080a eorlike",
     ]
 
 
 def known_signature(k, engine, case, model, spec, impl):
     """A failing case belongs to a known finding iff, on every PDU where the implementation differs from the
     RFC decoder, it behaves exactly like the decoder's Code mode, in the direction of that finding."""
-    if engine != "c04":
+    if engine not in ("c04", "c04bmp", "c04bgp") or k.get("engine") != "c04":
         return False
     ms, ss, is_ = segments(model), segments(spec), segments(impl)
     if not (len(ms) == len(ss) == len(is_)) or not ms:
@@ -363,7 +368,15 @@ def known_signature(k, engine, case, model, spec, impl):
     return hit
 
 
-ENGINES = [{"name": "c04", "gen": gen, "corpus": corpus, "nontrivial": nontrivial, "classify": classify, "shards": 4}]
+def gen_bmp(rng, tier):
+    n = 400 if tier == "quick" else 8000
+    for c in gen(rng, tier, n):
+        yield c
+
+
+ENGINES = [{"name": "c04", "gen": gen, "corpus": corpus, "nontrivial": nontrivial, "classify": classify, "shards": 4},
+           {"name": "c04bmp", "gen": gen_bmp, "corpus": corpus, "nontrivial": nontrivial, "classify": classify, "shards": 4},
+           {"name": "c04bgp", "gen": gen_bmp, "corpus": corpus, "nontrivial": nontrivial, "classify": classify, "shards": 4}]
 
 LEVEL_TEXT = ("Theorems over all well-formed UPDATE ASTs of an independent RFC 4271/4760 codec in Coq (encode/decode round trip incl. "
               "flags, extended length, MP_REACH/MP_UNREACH for four families and opaque other AFI/SAFIs; the derived events are exactly one "
